@@ -115,8 +115,9 @@ TABLE = [
     ("rcs", 2, 5), ("rcs", 3, 1), ("rcs", 4, 1), ("rps", 3, 1), ("rbs", 3, 2), ("rbs", 6, 1),
     ("onsite", 2, 2), ("onsite", 4, 1), ("global", 2, 3), ("global", 3, 1), ("brickwall", 2, 2), ("brickwall", 4, 1),
     ("gate", 2, 3), ("gate", 1, 1), ("coin", 4, 2),
-    ("t:rcm", 1, 2), ("t:rcm", 2, 12), ("t:rcm", 3, 2), ("t:rpm", 2, 3), ("t:rpair", 2, 2), ("t:rcliff", 3, 1),
-    ("t:rcs", 2, 2), ("t:rpauli", 2, 1), ("t:rps", 2, 1),
+    ("t:rcm", 1, 2), ("t:rcm", 2, 12), ("t:rcm", 3, 8), ("t:rpm", 2, 3), ("t:rpair", 2, 2), ("t:rcliff", 3, 2),
+    ("t:rcs", 2, 2), ("t:rpauli", 2, 1), ("t:rps", 2, 1), ("t:rpm", 3, 1), ("t:rcs", 3, 1), ("t:rpair", 3, 1),
+    ("t:rcm", 4, 1), ("rps", 2, 1),
 ]
 
 
@@ -264,6 +265,9 @@ class RunClass(Run):
                         self.bin("sign", sgn)
                 elif n == 3:
                     self.bin("first_pair", (cls[0], cls[1]))
+                    for i in range(6):
+                        self.bin("row%d" % i, cls[i])   # marginal of every image: uniform over 63 strings
+                    self.bin("weights", tuple(sorted(sum(1 for a in c if a) for c in cls)))
                     if ps is not None:
                         self.bin("sign", sgn)
             if s in ("rpm", "t:rpm", "rpauli", "t:rpauli"):
@@ -324,6 +328,8 @@ class RunClass(Run):
 EXPECTED_BINS = {
     ("class", 1, "cliff"): 6, ("class_x_sign", 1, "cliff"): 24, ("class", 2, "cliff"): 720, ("sign", 2, "any"): 16,
     ("first_pair", 3, "cliff"): 2016, ("sign", 3, "any"): 64,
+    ("row0", 3, "cliff"): 63, ("row1", 3, "cliff"): 63, ("row2", 3, "cliff"): 63, ("row3", 3, "cliff"): 63,
+    ("row4", 3, "cliff"): 63, ("row5", 3, "cliff"): 63,
     ("class", 1, "pauli"): 6, ("class", 2, "pauli"): 36, ("class", 3, "pauli"): 216, ("sign", 1, "any"): 4,
     ("state", 2, "cliffstate"): 60, ("state", 2, "productstate"): 36,
     ("bits", 3, "rbs"): 8, ("coins", 4, "coin"): 16, ("pair_joint", 2, "pair"): 120, ("pair_first", 2, "pair"): 15,
